@@ -121,7 +121,8 @@ def opDe (kind : String) (args : List String) : String :=
     match kind with
     | "cie76" => "ok " ++ showF (cie76 x y)
     | "ciede2000" => "ok " ++ showF (ciede2000 x y) ++ " #" ++ ciede2000Tag x y
-    | "sharma" => "ok " ++ showF (ciede2000Sharma x y) ++ " #" ++ ciede2000Tag x y
+    | "sharma" => "ok " ++ showF (ciede2000Sharma x y) ++ " #" ++ ciede2000Tag x y ++
+        (if ciede2000AtDiscontinuity x y then " #!exempt" else "")
     | _ => bad
   | _ => bad
 
